@@ -1,7 +1,7 @@
 (* C06: side conditions under which the primitives of a trace run (always true of the traces the
    verbs produce), the extra conditions that exclude the refuted classes, and the invariants
    they preserve. *)
-From stdpp Require Import gmap strings.
+From stdpp Require Import gmap strings sorting.
 From RecordUpdate Require Import RecordSet.
 From Coq Require Import NArith Lia.
 From Verif Require Import Blocking.Model Blocking.Lemmas Blocking.Prims.
@@ -324,7 +324,7 @@ Section traces2.
     apply Valid_seq. { apply easy_Valid. apply Forall_fmap, Forall_forall. intros; exact I. }
     set (s1 := prun i (PBumpSvc <$> names_of (svcs_of_node n s)) s).
     apply Valid_seq. { apply easy_Valid. apply seq_all_Forall. intros. apply delete_service_easy. }
-    set (a2 := seq_all i (fun kv : string * string * svc => delete_service i n kv.1.2) (map_to_list (svcs_of_node n s1)) s1).
+    set (a2 := seq_all i (fun kv : string * string * svc => delete_service i n kv.1.2) (svcs_in_id_order n s1) s1).
     set (s2 := prun i a2 s1).
     apply Valid_seq. { apply easy_Valid. apply seq_all_Forall. intros. apply delete_check_easy. }
     set (a3 := seq_all i (fun kv : string * string * chk => delete_check i n kv.1.2) (map_to_list (checks_of_node n s2)) s2).
@@ -346,7 +346,8 @@ Section traces2.
       case_bool_decide as Hin; [discriminate|]. apply Hin.
       apply elem_of_list_fmap. exists (key, sv). split.
       + destruct key as [kn ks]. cbn in Hkn. subst kn. reflexivity.
-      + apply elem_of_map_to_list. apply map_filter_lookup_Some. split; [exact Hsv|exact Hkn].
+      + unfold svcs_in_id_order. rewrite merge_sort_Permutation.
+        apply elem_of_map_to_list. apply map_filter_lookup_Some. split; [exact Hsv|exact Hkn].
     - apply easy_Valid. eapply Forall_impl; [apply (delete_sessions_light (fun kv : string * sess => kv.1))|apply light_easy].
   Qed.
 End traces2.
